@@ -75,6 +75,7 @@ KIND_TEXT = {
     "use-after-free": "used after release",
     "free-after-move": "released after ownership was handed over",
     "dangling-out-pointer": "out-pointer left pointing to freed memory",
+    "free-of-borrowed": "memory released that the caller still owns",
 }
 
 
